@@ -205,10 +205,17 @@ func (e *SpecEnv) loadState() *State {
 
 func (e *SpecEnv) specLoad(prefix string, t types.Type, ref, idx Term) Val {
 	c := e.c
-	c.noName++
+	// inside a quantifier body nothing may be named (the bound variable would escape); outside, naming the loaded
+	// components keeps the well-formedness facts short ("opt decl-pc" functions only: it changes term shapes)
+	named := c.declBool && e.qdepth == 0 && c.noName == 0
+	if !named {
+		c.noName++
+	}
 	ls := e.loadState()
 	v := c.load(ls, prefix, t, ref, idx)
-	c.noName--
+	if !named {
+		c.noName--
+	}
 	if e.qdepth == 0 && ls.pc.S != "true" {
 		// the same load is evaluated many times in one clause: keep each well-formedness fact once
 		if e.factSeen == nil {
